@@ -345,8 +345,8 @@ func (p *Prog) checkShouldTotalSource(r *Report, rule, name string, run *ssa.Fun
 			if !ok || fieldName(fa) != "ShouldTotal" || cellOf(fa.X) != cell {
 				return
 			}
-			if f == run {
-				return
+			if f == run || f.Parent() == nil {
+				return // the literal's own initialisation (in Run or in a helper that builds the data)
 			}
 			// the closure is passed to <config>.DefaultShouldTotal.Unwrap(...)
 			for _, mc := range closureUses(f.Parent(), f) {
@@ -501,7 +501,15 @@ func returnedReconcilerCalls(f *ssa.Function) ([]recCall, []*ssa.Return) {
 			continue
 		}
 		name, recv, args, c := methodCall(retResult(ret, 0))
-		if c != nil && len(f.Params) > 0 && strip(recv) == ssa.Value(f.Params[0]) && typeNameOf(recv.Type()) == "Reconciler" {
+		// the reconciler the step is given: its (only) parameter of that type — the first one of
+		// a closure, the one after the receiver when the step is a method of a handler struct
+		var recParam ssa.Value
+		for _, prm := range f.Params {
+			if typeNameOf(prm.Type()) == "Reconciler" {
+				recParam = prm
+			}
+		}
+		if c != nil && recParam != nil && strip(recv) == recParam && typeNameOf(recv.Type()) == "Reconciler" {
 			out = append(out, recCall{name, args, c, ret})
 		} else {
 			other = append(other, ret)
@@ -518,6 +526,7 @@ func ruleP04Steps(p *Prog, r *Report) {
 		return
 	}
 	var isCmdTime func(v ssa.Value) bool
+	cmdTimeDepth := 0
 	isCmdTime = func(v ssa.Value) bool {
 		// the command's time: result 0 of AtTime(now, config) (possibly through the variable it is
 		// stored in), or that time moved to another day with Plus (the shift itself is P17's business)
@@ -526,6 +535,23 @@ func ruleP04Steps(p *Prog, r *Report) {
 			if _, idx := callOf(v); idx == 0 {
 				return isCmdTime(recv)
 			}
+		}
+		// chosen between the time and the shifted time in a local variable
+		if ph, isPhi := v.(*ssa.Phi); isPhi && cmdTimeDepth < 6 {
+			cmdTimeDepth++
+			defer func() { cmdTimeDepth-- }()
+			for _, e := range ph.Edges {
+				if !isCmdTime(e) {
+					return false
+				}
+			}
+			return len(ph.Edges) > 0
+		}
+		// carried in a field of a handler struct that is filled in one place
+		if iv, ok := fieldInitValue(v); ok && cmdTimeDepth < 6 {
+			cmdTimeDepth++
+			defer func() { cmdTimeDepth-- }()
+			return isCmdTime(iv)
 		}
 		if u, ok := v.(*ssa.UnOp); ok && u.Op == token.MUL {
 			if cell := cellOf(u.X); cell != nil {
